@@ -61,39 +61,60 @@ def validate_events(chk, events_path, name):
             raise C.ToolError("Trace_Sound did not complete on %s" % part)
         chk.add_tlc("Trace_Sound[%s:%d]" % (name, ci), res, "one state per consumed event")
         for b in res.printed("BAD"):
-            bad.append(b["e"])
+            bad.append(b)
         os.remove(part)
     return bad, n
 
 
-def event_signature(e):
-    sig = {"event": e.get("ev"), "kind": e.get("kind"), "ty": json.dumps(e.get("ty"), sort_keys=True)}
-    if e.get("ev") == "write":
-        sig["op"] = e.get("op")
-    return sig
+def classify_events(bad):
+    """bad: list of {"e": event, "w": witness} rejected by Trace_Sound. Adds a signature to each.
+    Classes: exhausted-iterator-value (the value carried by an exhausted iterator result (false, v) is not in
+    the element type, or a value that flowed out of such a result in a run that pulled past the end),
+    value-not-in-type (everything else), write-inconsistent, unbound-parameter."""
+    def pair(b):
+        return (json.dumps(b["w"]["wv"], sort_keys=True), json.dumps(b["w"]["wt"], sort_keys=True))
+    exh_pairs = {pair(b) for b in bad if b["w"].get("exh") and b["e"].get("t") == 1}
+    by_pair = {}
+    for b in bad:
+        by_pair.setdefault(pair(b), set()).add(b["e"].get("kind") or b["e"].get("ev"))
+    out = []
+    for b in bad:
+        e, w = b["e"], b["w"]
+        if e.get("ev") == "unbound":
+            sig = {"class": "unbound-parameter", "name": e.get("name")}
+        elif e.get("ev") == "write" and w["wv"].get("k") == "n/a":
+            sig = {"class": "write-inconsistent", "op": e.get("op")}
+        elif w.get("exh") or (e.get("t") == 1 and pair(b) in exh_pairs):
+            sig = {"class": "exhausted-iterator-value"}
+        else:
+            sig = {"class": "value-not-in-type", "witness_value": pair(b)[0], "witness_type": pair(b)[1],
+                   "roots": ",".join(sorted(by_pair[pair(b)]))}
+        sig["event"] = e.get("ev")
+        out.append((sig, b))
+    return out
 
 
-def report(chk, own_prop, results, bad_events, own_suites=None):
+def report(chk, own_prop, results, bad_events, attribute=None):
     """Route mismatches and rejected events to chk if they belong to `own_prop`."""
     n_other = 0
     for r in results:
         suite_prop = SUITES.get(r["suite"], (None, None, None, r.get("owner")))[3]
         for m in r["mismatches"]:
-            prop = KIND_PROP.get(m["kind"], None) or suite_prop
             if m["kind"] == "render":
                 raise C.ToolError("renderer failed on a case of suite %s: %s" % (r["suite"], m))
+            prop = KIND_PROP.get(m["kind"], None) or suite_prop or (attribute(m) if attribute else None)
             if prop != own_prop:
                 n_other += 1
                 continue
             sig = {"kind": m["kind"], "suite": r["suite"], "what": m.get("what", "")[:200],
                    "program": m.get("program", "")}
             chk.violation(sig, m)
-    for e in bad_events:
-        prop = EVENT_PROP.get(e.get("ev"))
+    for sig, b in classify_events(bad_events):
+        prop = EVENT_PROP.get(b["e"].get("ev"))
         if prop != own_prop:
             n_other += 1
             continue
-        chk.violation(event_signature(e), {"rejected_event": e,
+        chk.violation(sig, {"rejected_event": b["e"], "witness": b["w"],
                       "note": "the trace specification (Trace_Sound.tla) has no behaviour with this event"})
     return n_other
 
